@@ -5,6 +5,8 @@ states produced by the sliced prologue, with symbolic operand values."""
 from __future__ import annotations
 
 import collections
+import contextlib
+import functools
 import itertools
 
 import z3
@@ -56,9 +58,39 @@ class Harness:
             Harness._cache[key] = (slicer.prologue_slice(ex, li), slicer.step_slice(ex, li), slicer.epilogue_slice(ex, li))
         self.prologue, self.stepf, self.epilogue = Harness._cache[key]
 
+    producer = "decl"
+
     def value(self, irtype, name=None):
-        """An instruction producing a value of the given type (its result is bound by hand)."""
-        i = self.ir.DeclareVariableInstruction(irtype, name)
+        """An instruction producing a value of the given type (its result is bound by hand, the instruction itself is never executed).
+        Harness.producer selects the CLASS of that instruction: what a step does with an operand value must not depend on which kind of
+        instruction produced it (a constructor result is as much a value as a loaded variable)."""
+        ir = self.ir
+        k = Harness.producer
+        if k == "decl" or name is not None:
+            i = ir.DeclareVariableInstruction(irtype, name)
+        else:
+            d = self.bb.AddInstruction(ir.DeclareVariableInstruction(irtype, None))
+            if k == "load":
+                i = ir.VariableAccessInstruction(irtype, "someLocal", ir.VariableAccessScope.FUNCTION_LOCAL)
+            elif k == "construct":
+                i = ir.ConstructPrimitiveInstruction(irtype, [d])
+            elif k == "shuffle":
+                i = ir.ShuffleInstruction(irtype, d, d, [0, 1])
+            elif k == "call":
+                i = ir.CallInstruction(irtype, "g", [d])
+            elif k == "binary":
+                i = ir.BinaryInstruction(ir.OpCode.VECTOR_ADD if irtype.Kind == ir.TypeKind.Vector else ir.OpCode.ADD, irtype, d, d)
+            elif k == "cast":
+                i = ir.CastInstruction(d, irtype)
+            elif k == "vector-set" and irtype.Kind != ir.TypeKind.Vector:
+                i = d
+                return i
+            elif k == "vector-set":
+                ix = self.bb.AddInstruction(ir.DeclareVariableInstruction(ir.IntegerType(), None))
+                i = ir.VectorAccessInstruction(irtype, d, ix)
+                i.SetStore(ix)
+            else:
+                raise KeyError(k)
         return self.bb.AddInstruction(i)
 
     def add(self, instr):
@@ -85,6 +117,19 @@ class Harness:
             kind, val, post = self.stepf(**{k: pre[k] for k in params if k in pre})
         self.kind, self.val, self.post = kind, val, post
         return kind, val, post
+
+
+PRODUCERS = ("decl", "load", "construct", "shuffle", "call", "binary", "cast", "vector-set")
+
+
+@contextlib.contextmanager
+def produced_by(kind):
+    prev = Harness.producer
+    Harness.producer = kind
+    try:
+        yield
+    finally:
+        Harness.producer = prev
 
 
 def _deep(v):
@@ -228,7 +273,15 @@ def sym_of(ctx, irtype, name, dims=None):
 
 def T(kind):
     ir = IR()
-    return {"i": ir.IntegerType(), "u": ir.IntegerType(unsigned=True), "f": ir.FloatType()}[kind]
+    return {"i": ir.IntegerType(), "u": ir.IntegerType(unsigned=True), "f": ir.FloatType(), "F": ir.FloatType()}[kind]
+
+
+def sym_repr(ctx, kind, name):
+    """A scalar operand value: kind 'F' is a float-typed value that the VM holds as a Python int (zero-initialised float storage is the
+    int 0, `float x = 7;` stores the int 7, ++/-- keep it an int) -- the static type, not the representation, selects the semantics."""
+    if kind == "F":
+        return ctx.int(name)
+    return sym_of(ctx, T(kind), name)
 
 
 def vec(kind, n):
@@ -262,14 +315,14 @@ def veq(a, b):
 SCALAR_BIN = ["ADD", "SUB", "MUL", "DIV", "MOD", "LG_AND", "LG_OR", "CMP_GT", "CMP_LT", "CMP_LE", "CMP_GE", "CMP_NE", "CMP_EQ"]
 NSL_OP = {"ADD": "+", "SUB": "-", "MUL": "*", "DIV": "/", "MOD": "%", "LG_AND": "&&", "LG_OR": "||", "CMP_GT": ">", "CMP_LT": "<", "CMP_LE": "<=",
           "CMP_GE": ">=", "CMP_NE": "!=", "CMP_EQ": "=="}
-NSLT = {"i": "int", "f": "float", "u": "uint"}
+NSLT = {"i": "int", "f": "float", "u": "uint", "F": "float"}
 
 
 def replay_binary(opname, k0, k1, model):
     a, b = model.get("a", 1), model.get("b", 1)
     a = int(a) if k0 != "f" else float(a)
     b = int(b) if k1 != "f" else float(b)
-    both_int = k0 != "f" and k1 != "f"
+    both_int = k0 not in "fF" and k1 not in "fF"
     is_cmp = opname.startswith("CMP") or opname.startswith("LG")
     rt = "int" if (both_int or is_cmp) else "float"
     return script("""
@@ -305,7 +358,7 @@ def step_binary(R):
     advances to the next instruction and changes nothing else (frame)."""
     ir = IR()
     for opname in SCALAR_BIN:
-        for k0, k1 in itertools.product("if", repeat=2):
+        for k0, k1 in itertools.product("ifF", repeat=2):
             both_int = k0 == "i" and k1 == "i"
             is_cmp = opname.startswith("CMP") or opname.startswith("LG")
             rtype = T("i") if (both_int or is_cmp) else T("f")
@@ -315,7 +368,7 @@ def step_binary(R):
                 v0, v1 = h.value(T(k0)), h.value(T(k1))
                 ins = h.add(ir.BinaryInstruction(ir.OpCode[opname], rtype, v0, v1))
                 h.add(ir.ReturnInstruction(ins))
-                a, b = sym_of(ctx, T(k0), "a"), sym_of(ctx, T(k1), "b")
+                a, b = sym_repr(ctx, k0, "a"), sym_repr(ctx, k1, "b")
                 if opname in ("DIV", "MOD"):
                     ctx.assume(b != 0)
                 if opname == "MOD":
@@ -432,38 +485,44 @@ def step_float_concrete(R):
 SCOPES = ["GLOBAL", "FUNCTION_ARGUMENT", "FUNCTION_LOCAL"]
 
 
-@family("VM.step.access", props=["C01", "C03", "C05", "C15"], functions=[EXEC])
+@family("VM.step.access", props=["C01", "C02", "C03", "C05", "C15"], functions=[EXEC])
 def step_access(R):
     """LOAD / STORE for the three scopes, LOAD_ARRAY / STORE_ARRAY, LOAD_MEMBER / STORE_MEMBER, BRANCH (conditional and not), RETURN
     (value and void): the arm reads/writes exactly the named variable slot of the named scope and nothing else."""
     ir = IR()
     S = ir.VariableAccessScope
-    for scope in SCOPES:
-        def run_load(ctx, scope=scope):
-            h = Harness({"p0": T("i"), "p1": T("i")}, globals_={"g": None, "h": None})
+    st0 = ir.StructureType(collections.OrderedDict([("a", T("i")), ("b", T("f"))]), name="S")
+    VT = collections.OrderedDict([("int", T("i")), ("float", T("f")), ("int[2]", ir.ArrayType(T("i"), [2])), ("int[2][2]", ir.ArrayType(T("i"), [2, 2])), ("struct", st0), ("float3", vec("f", 3)), ("float3x3", mat(3))])
+    for scope, (tl, vt) in itertools.product(SCOPES, VT.items()):
+        # The value goals are IDENTITY goals for every type of value: a STORE binds the very object it is given and a LOAD yields the very
+        # object that is bound.  Load-after-store forwarding (IR.opt.las) replaces the loaded value by the stored one, and arrays / structs
+        # are updated in place by STORE_ARRAY / STORE_MEMBER, so a copy made by either arm would make optimised and unoptimised code differ.
+        def run_load(ctx, scope=scope, vt=vt):
+            h = Harness({"p0": vt, "p1": vt}, globals_={"g": None, "h": None})
             var = {"GLOBAL": "g", "FUNCTION_ARGUMENT": 1, "FUNCTION_LOCAL": "x"}[scope]
-            ins = h.add(ir.VariableAccessInstruction(T("i"), var, S[scope]))
-            gv, a0, a1, xv = ctx.int("g"), ctx.int("a0"), ctx.int("a1"), ctx.int("x")
+            ins = h.add(ir.VariableAccessInstruction(vt, var, S[scope]))
+            gv, a0, a1, xv = sym_of(ctx, vt, "g"), sym_of(ctx, vt, "a0"), sym_of(ctx, vt, "a1"), sym_of(ctx, vt, "x")
             h.globalScope.update(g=gv, h=ctx.int("h"))
             h.start([a0, a1], {"x": xv, "y": ctx.int("y")}, ins)
             h.step()
             want = {"GLOBAL": gv, "FUNCTION_ARGUMENT": a1, "FUNCTION_LOCAL": xv}[scope]
             got = h.post["localScope"].get(ins.Reference)
-            return [("value", z3.BoolVal(got is want), f"LOAD {scope}")] + frame_goals(h, writes_local=[ins.Reference])
+            return [("value", z3.BoolVal(got is want), f"LOAD {scope}: the bound object itself")] + frame_goals(h, writes_local=[ins.Reference])
 
-        verify(R, "VM.step.LOAD", EXEC, run_load, label=scope)
+        verify(R, "VM.step.LOAD", EXEC, run_load, label=scope if tl == "int" else f"{scope},{tl}")
 
-        def run_store(ctx, scope=scope):
-            h = Harness({"p0": T("i"), "p1": T("i")}, globals_={"g": None, "h": None})
+        def run_store(ctx, scope=scope, vt=vt, producer="decl"):
+            h = Harness({"p0": vt, "p1": vt}, globals_={"g": None, "h": None})
             var = {"GLOBAL": "g", "FUNCTION_ARGUMENT": 1, "FUNCTION_LOCAL": "x"}[scope]
-            src = h.value(T("i"))
-            ins = ir.VariableAccessInstruction(T("i"), var, S[scope])
+            with produced_by(producer):
+                src = h.value(vt)
+            ins = ir.VariableAccessInstruction(vt, var, S[scope])
             ins.SetStore(src)
             h.add(ins)
-            v = ctx.int("v")
-            h.globalScope.update(g=ctx.int("g"), h=ctx.int("h"))
-            args = [ctx.int("a0"), ctx.int("a1")]
-            h.start(args, {src: v, "x": ctx.int("x"), "y": ctx.int("y")}, ins)
+            v = sym_of(ctx, vt, "v")
+            h.globalScope.update(g=sym_of(ctx, vt, "g"), h=ctx.int("h"))
+            args = [sym_of(ctx, vt, "a0"), sym_of(ctx, vt, "a1")]
+            h.start(args, {src: v, "x": sym_of(ctx, vt, "x"), "y": ctx.int("y")}, ins)
             h.step()
             if scope == "GLOBAL":
                 got = h.globalScope.get("g")
@@ -474,9 +533,12 @@ def step_access(R):
             else:
                 got = h.post["localScope"].get("x")
                 fr = frame_goals(h, writes_local=["x"])
-            return [("value", z3.BoolVal(got is v), f"STORE {scope}")] + fr
+            return [("value", z3.BoolVal(got is v), f"STORE {scope}: binds the object it is given"),
+                    ("source-register-intact", z3.BoolVal(h.post["localScope"].get(src.Reference) is v))] + fr
 
-        verify(R, "VM.step.STORE", EXEC, run_store, label=scope)
+        for producer in (PRODUCERS if tl in ("int[2]", "float3") else ("decl",)):
+            lab = scope if tl == "int" else f"{scope},{tl}"
+            verify(R, "VM.step.STORE", EXEC, functools.partial(run_store, producer=producer), label=lab if producer == "decl" else f"{lab},value-from-{producer}")
 
     # arrays
     def run_la(ctx):
@@ -545,7 +607,7 @@ def step_access(R):
     verify(R, "VM.step.STORE_MEMBER", EXEC, run_sm)
 
     # branches: two further blocks; the step must continue at the first instruction of the target block
-    for cond in (False, True):
+    for cond in ("unconditional", "conditional", "no-predicate-with-false-block"):
         def run_br(ctx, cond=cond):
             h = Harness({"p": T("i")})
             f = h.function
@@ -554,7 +616,9 @@ def step_access(R):
             t1 = b1.AddInstruction(ir.ReturnInstruction())
             filler = b1.AddInstruction(ir.ReturnInstruction())
             t2 = b2.AddInstruction(ir.ReturnInstruction())
-            br = ir.BranchInstruction(b2, b1, pv) if cond else ir.BranchInstruction(b2)
+            # the third form is what a `for (init; ; next)` without a condition lowers to: both targets set, no predicate -> always the first
+            br = {"conditional": lambda: ir.BranchInstruction(b2, b1, pv), "unconditional": lambda: ir.BranchInstruction(b2),
+                  "no-predicate-with-false-block": lambda: ir.BranchInstruction(b2, b1)}[cond]()
             h.add(br)
             p = ctx.int("pred")
             h.start([0], {pv: p}, br)
@@ -562,10 +626,10 @@ def step_access(R):
             pc = h.post["currentInstruction"]
             ins = h.pre["instructions"]
             i1, i2 = ins.index(t1), ins.index(t2)
-            want = z3.If(p.t != 0, i2, i1) if cond else z3.IntVal(i2)
-            return [("target", term(pc) == want, "conditional" if cond else "unconditional")] + [g for g in frame_goals(h) if g[0] != "pc"]
+            want = z3.If(p.t != 0, i2, i1) if cond == "conditional" else z3.IntVal(i2)
+            return [("target", term(pc) == want, cond)] + [g for g in frame_goals(h) if g[0] != "pc"]
 
-        verify(R, "VM.step.BRANCH", EXEC, run_br, label="conditional" if cond else "unconditional")
+        verify(R, "VM.step.BRANCH", EXEC, run_br, label=cond)
 
     for withval in (True, False):
         def run_ret(ctx, withval=withval):
@@ -997,9 +1061,10 @@ def step_vector(R):
 
         verify(R, f"VM.step.{what}_GET", EXEC, run_get, label=str(n))
 
-        def run_set(ctx, what=what, cls=cls, ty=ty, n=n, et=et):
+        def run_set(ctx, what=what, cls=cls, ty=ty, n=n, et=et, producer="decl"):
             h = Harness({"p": T("i")})
-            v, ix, src = h.value(ty(n)), h.value(T("i")), h.value(et)
+            with produced_by(producer):
+                v, ix, src = h.value(ty(n)), h.value(T("i")), h.value(et)
             ins = getattr(ir, cls)(ty(n), v, ix)
             ins.SetStore(src)
             h.add(ins)
@@ -1022,4 +1087,5 @@ def step_vector(R):
             return [("value", z3.And(z3.BoolVal(ok_shape), *conj)), ("copy", z3.BoolVal(got is not a)),
                     ("old-value-intact", z3.BoolVal(len(a) == n and all(x is y for x, y in zip(a, old))))] + frame_goals(h, writes_local=[ins.Reference])
 
-        verify(R, f"VM.step.{what}_SET", EXEC, run_set, label=str(n))
+        for producer in PRODUCERS:
+            verify(R, f"VM.step.{what}_SET", EXEC, functools.partial(run_set, producer=producer), label=str(n) if producer == "decl" else f"{n},operands-from-{producer}")
